@@ -42,9 +42,11 @@ fn outcome<T, F: FnOnce() -> Result<T, ()>>(f: F) -> Result<Result<T, ()>, Strin
 // ------------------------------------------------------------------------------------------------
 
 struct Party { stat: SecretKey, eph: SecretKey }
+static RARE_BIG: std::sync::atomic::AtomicBool = std::sync::atomic::AtomicBool::new(false);
 
-fn msg_size(rng: &mut Rng) -> usize {
-	match rng.below(400) {
+fn msg_size(rng: &mut Rng, rare_big: bool) -> usize {
+	// the thorough tier runs 10^5 messages: large ones are drawn 10x less often there (file sizes)
+	match rng.below(if rare_big { 4000 } else { 400 }) {
 		0 | 1 => 65535, 2 | 3 => 65534, 4 | 5 => rng.range(9000, 65535) as usize,
 		6..=15 => 0, 16..=25 => 1, 26..=35 => 2, 36..=50 => rng.range(1000, 9000) as usize,
 		51..=60 => rng.range(60, 70) as usize,
@@ -116,7 +118,7 @@ fn cipher_session(rec: &mut Rec, rng: &mut Rng, secp: &Secp, ini: &Party, res: &
 	while left_ab + left_ba > 0 {
 		let ab = if left_ba == 0 { true } else if left_ab == 0 { false } else { rng.chance(left_ab as u64, (left_ab + left_ba) as u64) };
 		let (snd, rcv, s, r) = if ab { left_ab -= 1; (&mut a, &mut b, "A", "B") } else { left_ba -= 1; (&mut b, &mut a, "B", "A") };
-		let sz = msg_size(rng); let m = rng.bytes(sz);
+		let sz = msg_size(rng, RARE_BIG.load(std::sync::atomic::Ordering::Relaxed)); let m = rng.bytes(sz);
 		let frame = match snd.encrypt_buffer(&m) { Ok(f) => f, Err(()) => { rec.oracle_fail("encrypt_buffer refused a message <= 65535".into()); return; } };
 		if frame.len() != m.len() + 34 { rec.oracle_fail(format!("frame length {} for message of {}", frame.len(), m.len())); }
 		let class = if m.len() > 60000 { "enc:max" } else if m.len() < 2 { "enc:tiny" } else { "enc" };
@@ -177,6 +179,7 @@ fn run_cipher(args: &Args) {
 	let mut rng = Rng::new(args.seed);
 	let secp = Secp256k1::new();
 	let all: Vec<usize> = (0..66).collect();
+	RARE_BIG.store(args.thorough, std::sync::atomic::Ordering::Relaxed);
 	// session 0: the BOLT-8 appendix A keys, every act offset, > 2500 messages one way (5 rotations)
 	let ini = Party { stat: sk([0x11; 32]), eph: sk([0x12; 32]) };
 	let res = Party { stat: sk([0x21; 32]), eph: sk([0x22; 32]) };
@@ -533,7 +536,7 @@ fn run_peer(args: &Args) {
 	// (1) two PeerManagers: identity delivery under fragmentation / coalescing / back-pressure
 	let (n_long, n_runs, n_small) = if args.thorough { (6000, 400, 300) } else { (1300, 60, 120) };
 	pm_pair_scenario(&mut rec, &mut rng, &secp, n_long, 6, true, Plan::Clean, false);
-	pm_pair_scenario(&mut rec, &mut rng, &secp, n_long / 2 + 100, 3, false, Plan::Clean, true);
+	pm_pair_scenario(&mut rec, &mut rng, &secp, n_long - 150, 3, false, Plan::Clean, true);
 	for i in 0..n_runs {
 		let plan = match i % 3 { 0 => Plan::Clean, 1 => Plan::Corrupt, _ => Plan::Truncate };
 		let n = 1 + rng.below(n_small) as usize;
@@ -620,8 +623,73 @@ fn run_peer(args: &Args) {
 		if let Err(e) = r { rec.oracle_fail(format!("well-formed message sequence panicked the node: {} ; messages {:?}", e, seq.iter().map(|m| hex(&m[..m.len().min(40)])).collect::<Vec<_>>())); }
 		oracle_case(&mut rec, &format!("note nonsense {}", seq.iter().skip(1).map(|m| format!("{}:{}", u16::from_be_bytes([m[0], m[1]]), m.len())).collect::<Vec<_>>().join(",")), "nonsense");
 	}
+	nonsense_chanman(&mut rec, &mut rng, &secp, if args.thorough { 1500 } else { 150 });
 	rec.notes.insert("rule".into(), "every `run` is one whole connection (distinct by its chunk-size list): two real PeerManagers joined by descriptors that fragment, coalesce and refuse writes per PRNG (one > 1000-message run per direction), or the harness speaking BOLT-8 through the Enc hook to one PeerManager (protocol rules, corruption at chosen offsets); garbage handshakes and nonsensical BOLT messages are oracle cases (no panic)".into());
 	rec.finish();
+}
+
+
+/// BOLT-8 handshake (harness = initiator, through `Enc`) with any PeerManager; returns the cipher
+/// state and the node's decrypted Init.
+fn enc_handshake_generic<CM: msgs::ChannelMessageHandler, RM: msgs::RoutingMessageHandler, OM: msgs::OnionMessageHandler, L: lightning::util::logger::Logger, CMH: CustomMessageHandler, NS: lightning::sign::NodeSigner, SM: lightning::ln::msgs::SendOnlyMessageHandler>(
+	pm: &PeerManager<Desc, CM, RM, OM, L, CMH, NS, SM>, node_id: PublicKey, rng: &mut Rng, secp: &Secp, d: &mut Desc,
+) -> Result<(Enc, Vec<u8>), String> {
+	let my = rand_sk(rng);
+	let signer = TestNodeSigner::new(my);
+	d.s.lock().unwrap().budget = usize::MAX / 2;
+	let take = |d: &Desc, n: usize| -> Result<Vec<u8>, String> { let mut s = d.s.lock().unwrap(); if s.out.len() < n { return Err("short write".into()); } Ok(s.out.drain(..n).collect()) };
+	let mut enc = Enc::new_outbound(node_id, rand_sk(rng));
+	let act1 = enc.get_act_one(secp);
+	pm.new_inbound_connection(d.clone(), None).map_err(|_| "inbound")?;
+	pm.read_event(d, &act1).map_err(|_| "act1 rejected")?;
+	pm.process_events();
+	let act2 = take(d, 50)?;
+	let (act3, _) = enc.process_act_two(&act2, &&signer).map_err(|_| "act2 rejected")?;
+	pm.read_event(d, &act3).map_err(|_| "act3 rejected")?;
+	pm.process_events();
+	let hdr = take(d, 18)?;
+	let len = enc.decrypt_length_header(&hdr).map_err(|_| "init header")? as usize;
+	let mut body = take(d, len + 16)?;
+	enc.decrypt_message(&mut body).map_err(|_| "init body")?;
+	body.truncate(len);
+	Ok((enc, body))
+}
+
+/// (4b) the same nonsense through a PeerManager whose handlers are a real ChannelManager,
+/// P2PGossipSync and OnionMessenger (the whole library behind the transport): no panic.
+fn nonsense_chanman(rec: &mut Rec, rng: &mut Rng, secp: &Secp, n_conn: usize) {
+	use lightning::ln::functional_test_utils::{create_chanmon_cfgs, create_network, create_node_cfgs, create_node_chanmgrs};
+	let built = guarded(AssertUnwindSafe(|| {
+		let chanmon_cfgs = leak(create_chanmon_cfgs(1));
+		let node_cfgs = leak(create_node_cfgs(1, chanmon_cfgs));
+		let chanmgrs = leak(create_node_chanmgrs(1, node_cfgs, &[None]));
+		leak(create_network(1, node_cfgs, chanmgrs))
+	}));
+	let nodes = match built { Ok(n) => n, Err(e) => { rec.oracle_fail(format!("could not build a test node: {}", e)); return; } };
+	let node = &nodes[0];
+	let mh = MessageHandler { chan_handler: node.node, route_handler: &node.gossip_sync, onion_message_handler: &node.onion_messenger, custom_message_handler: leak(Handler::new()), send_only_message_handler: leak(IgnoringMessageHandler {}) };
+	let pm = PeerManager::new(mh, 0, &rng.bytes32(), leak(NullLogger), node.keys_manager);
+	let node_id = node.node.get_our_node_id();
+	for i in 0..n_conn {
+		let mut d = Desc::new(1000 + i as u64);
+		let (mut enc, init) = match enc_handshake_generic(&pm, node_id, rng, secp, &mut d) { Ok(x) => x, Err(e) => { rec.oracle_fail(format!("handshake with the ChannelManager-backed PeerManager failed: {}", e)); return; } };
+		let mut seq: Vec<Vec<u8>> = vec![init];
+		for _ in 0..(1 + rng.below(12)) { seq.push(nonsense_msg(rng)); }
+		let r = guarded(AssertUnwindSafe(|| {
+			for m in seq.iter() {
+				let f = enc.encrypt_buffer(m).unwrap();
+				if pm.read_event(&mut d, &f).is_err() { return; }
+				pm.process_events();
+				let _ = node.node.get_and_clear_pending_events();
+				if rng.chance(1, 6) { pm.timer_tick_occurred(); node.node.timer_tick_occurred(); }
+				if d.s.lock().unwrap().disconnected { return; }
+				d.s.lock().unwrap().out.clear();
+			}
+			pm.socket_disconnected(&d);
+		}));
+		if let Err(e) = r { rec.oracle_fail(format!("well-formed message sequence panicked a node with a real ChannelManager: {} ; messages {:?}", e, seq.iter().skip(1).map(|m| hex(&m[..m.len().min(60)])).collect::<Vec<_>>())); pm.socket_disconnected(&d); }
+		oracle_case(rec, &format!("note nonsense-chanman {}", seq.iter().skip(1).map(|m| format!("{}:{}", u16::from_be_bytes([m[0], m[1]]), m.len())).collect::<Vec<_>>().join(",")), "nonsense:real-channelmanager");
+	}
 }
 
 /// a BOLT message with a valid type and random (often well-formed) contents
